@@ -54,6 +54,7 @@ Sec(const std::string &name, char l = '0')
       {"P", "PR#a RO# CVa DCa"},
       {"Pm", "PR#a CCab RO# CVb DCb DCa"},
       {"Pa", "PR#a PR1b MCab RO# CVb DCb DCa"},
+      {"Pb", "PR#b PR1a MCab RO1 CVb DCb DCa"},   // a (possibly owning) guard of this lock overwritten by another lock's guard
       {"PP", "PR#a RO# CVa DCa PR#a RO# CVa DCa"},
       {"Xg", "LX#a XGa W# DXa"},
       {"Xvp", "LX#a SVap W# DXa"},
@@ -301,7 +302,7 @@ Family(const std::string &f, int lk)
     } else if (f == "ver3") {
       add(Cross({"Xg", "Xvp", "Ug", "Dvp"}, {"Xg", "S", "O", "U", "D"}, 2));
     } else if (f == "prep2") {  // C13
-      for (auto &p : {"P", "Pm", "Pa", "PP"})
+      for (auto &p : {"P", "Pm", "Pa", "Pb", "PP"})
         for (auto &w : {"X", "Xvp", "U", "D", "S", "SIX", "P", "OX", "DU"}) out.push_back(Sec(p) + " | " + Sec(w));
       for (auto &p : {"P", "PP"})
         for (auto &w1 : {"X", "D", "U"})
